@@ -713,7 +713,7 @@ class C12(Prop):
     props_file = 'Props/C12.v'
     imports = ['Model.ServerConn', 'Model.ServerConnObs']
     quick_n = 180
-    thorough_n = 2000
+    thorough_n = 3000
     rule = ('histories of peer actions (connect, send n, shutdown(WR), close, reset [SO_LINGER 0 on TCP / close with unread '
             'data on AF_UNIX], drain, not reading so that the 4.5 KB send buffer fills) over 1-4 concurrent connections '
             'interleaved with server write / close requests, also to already disconnected sockets, against a real '
